@@ -218,9 +218,25 @@ def check_diffs(ctx, p, key, crate, diffs, mw, MEM):
         ctx.ob("R14.3", key + "/diff", ok, detail=why, sites=[e.site for _, e in mw], sample={"diff": show(diffs)[:240]})
         return n
     # cw4-group: diffs is a loop accumulator; walk the chain and compare each step with the write of that iteration
-    term = diffs
-    seen = 0
+    # ... or several accumulators handed over one after the other (`added.into_iter().chain(removed).collect()`)
+    def parts(t):
+        if t[0] == "call" and len(t[2]) == 1 and t[1].split("::")[-1] in ("collect", "from_iter", "into_iter", "iter", "to_vec", "cloned", "into_vec"):
+            return parts(t[2][0])
+        if t[0] == "call" and len(t[2]) == 2 and (t[1].endswith("Iterator::chain") or t[1] in ("chain", "extend")):
+            return parts(t[2][0]) + parts(t[2][1])
+        return [t]
     loops_with_step = set()
+    for term in parts(diffs):
+        n += _diff_accumulator(ctx, p, key, term, mw, MEM, loops_with_step)
+    for _, e in mw:
+        if e.loops and e.loops[-1] not in loops_with_step:
+            ctx.ob("R14.3", key + "/write without diff", False, sites=[e.site], detail="MEMBERS %s in a loop that records no diff" % e.op)
+    return n
+
+
+def _diff_accumulator(ctx, p, key, term, mw, MEM, loops_with_step):
+    n = 0
+    seen = 0
     while term[0] == "loopvar" and seen < 10:
         seen += 1
         lk, var, itn = term[1], term[2], term[3]
@@ -253,7 +269,4 @@ def check_diffs(ctx, p, key, crate, diffs, mw, MEM):
         term = ent[0].value.get(var, ("unknown",))
     if term != ("list", ()):
         ctx.ob("R14.3", key + "/diff list starts empty", False, detail="diff accumulator starts from %s" % show(term)[:120])
-    for _, e in mw:
-        if e.loops and e.loops[-1] not in loops_with_step:
-            ctx.ob("R14.3", key + "/write without diff", False, sites=[e.site], detail="MEMBERS %s in a loop that records no diff" % e.op)
     return n
